@@ -55,6 +55,17 @@ TRANSLATORS = {
     "C16": _T + "harness/py2v.py + coq/lib/Py.v (get_token, check_token -> "
            "gen/TokenGen.v)",
 }
+TRANSLATORS.update({
+    "C08": _T + "harness/py2v_multipart.py + coq/lib/PyMultipart.v "
+           "(read_lines_to_outerboundary, _write, make_file, valid_boundary "
+           "-> gen/MultipartGen.v)",
+    "C14": _T + "harness/py2v_headers.py + coq/lib/PyHeaders.v (class "
+           "Headers -> gen/HeadersGen.v)",
+    "C18": _T + "harness/py2v_param.py + coq/lib/PyParam.v (_parseparam, "
+           "parse_header -> gen/ParamGen.v)",
+    "C19": _T + "harness/py2v_registry.py + coq/lib/PyRegistry.v (the "
+           "registration methods of Application -> gen/RegistryGen.v)",
+})
 TRANSLATORS["C03"] = TRANSLATORS["C04"] = TRANSLATORS["C01"]
 TRANSLATORS["C20"] = TRANSLATORS["C02"]
 
